@@ -184,6 +184,64 @@ func rbGenerate(root, dir, typ, name string) string {
 	return fmt.Sprintf("(* %s/%s.reBuildLocked not found *)\nDefinition %s_untranslated : unit := tt.\n", dir, typ, name)
 }
 
+// the name of the i-th round of virtual nodes of a consistent-hash member, as ConsistentHash.addLocked builds it: the
+// statement `virtualHost := fmt.Sprintf(<format>, <args>)` - its format string and argument texts become Gallina constants
+// (Select/NamingProofs.v interprets the format and proves the names of different (host, i) different)
+func rbNaming(root string) string {
+	fset := token.NewFileSet()
+	af, err := parser.ParseFile(fset, filepath.Join(root, "tars/selector/consistenthash/consistenthash_new.go"), nil, 0)
+	bytesOf := func(s string) string {
+		p := make([]string, len(s))
+		for i := 0; i < len(s); i++ {
+			p[i] = fmt.Sprint(s[i])
+		}
+		return "[" + strings.Join(p, "; ") + "]%N"
+	}
+	found, why := "", "ConsistentHash.addLocked not found"
+	if err == nil {
+		g := &rbGen{fset: fset}
+		for _, d := range af.Decls {
+			fd, ok := d.(*ast.FuncDecl)
+			if !ok || fd.Name.Name != "addLocked" || fd.Body == nil {
+				continue
+			}
+			why = "no statement `virtualHost := fmt.Sprintf(\"...\", ...)` in addLocked"
+			n := 0
+			ast.Inspect(fd.Body, func(x ast.Node) bool {
+				as, ok := x.(*ast.AssignStmt)
+				if !ok || len(as.Lhs) != 1 || len(as.Rhs) != 1 || g.src(as.Lhs[0]) != "virtualHost" {
+					return true
+				}
+				n++
+				c, ok := as.Rhs[0].(*ast.CallExpr)
+				if !ok || g.src(c.Fun) != "fmt.Sprintf" || len(c.Args) < 1 {
+					why = "virtualHost is not built by fmt.Sprintf: " + g.src(as)
+					return true
+				}
+				lit, ok := c.Args[0].(*ast.BasicLit)
+				if !ok || lit.Kind != token.STRING || !strings.HasPrefix(lit.Value, "\"") || strings.Contains(lit.Value, "\\") {
+					why = "format is not a plain string literal: " + g.src(as)
+					return true
+				}
+				var args []string
+				for _, a := range c.Args[1:] {
+					args = append(args, bytesOf(g.src(a)))
+				}
+				found = fmt.Sprintf("(* consistenthash addLocked: %s *)\nDefinition gen_vnode_format : list N := %s.\nDefinition gen_vnode_args : list (list N) := [%s].\n",
+					g.src(as), bytesOf(lit.Value[1:len(lit.Value)-1]), strings.Join(args, "; "))
+				return true
+			})
+			if n != 1 {
+				found, why = "", fmt.Sprintf("%d assignments to virtualHost in addLocked", n)
+			}
+		}
+	}
+	if found == "" {
+		return fmt.Sprintf("(* the virtual-node naming is NOT extracted: %s *)\nDefinition gen_vnode_untranslated : unit := tt.\n", strings.ReplaceAll(why, "*)", "* )"))
+	}
+	return found
+}
+
 func init() {
 	props["gen-selrebuild"] = func(a Args) {
 		root := os.Getenv("VERIF_REPO")
@@ -196,5 +254,6 @@ func init() {
 		fmt.Print(rbGenerate(root, "tars/selector/modhash", "ModHash", "gen_mh_reBuild"))
 		fmt.Print(rbGenerate(root, "tars/selector/random", "Random", "gen_rnd_reBuild"))
 		fmt.Print(rbGenerate(root, "tars/selector/roundrobin", "RoundRobin", "gen_rr_reBuild"))
+		fmt.Print(rbNaming(root))
 	}
 }
